@@ -36,6 +36,7 @@ func TestReplay(t *testing.T) {
 		Steps    []world.Step    `json:"steps"`
 		AolGen   json.RawMessage `json:"aol_genesis"`
 		DidGen   json.RawMessage `json:"did_genesis"`
+		PnftGen  json.RawMessage `json:"pnft_genesis"`
 	}
 	if err := json.Unmarshal(bz, &doc); err != nil {
 		t.Fatal(err)
@@ -46,7 +47,7 @@ func TestReplay(t *testing.T) {
 		if cfg == nil {
 			t.Fatalf("no machine for %s", doc.Property)
 		}
-		if _, err := replayHistory(cfg, doc.Steps, doc.AolGen, doc.DidGen); err != nil {
+		if _, err := replayHistory(cfg, doc.Steps, doc.AolGen, doc.DidGen, doc.PnftGen); err != nil {
 			fmt.Printf("REPLAY-VIOLATION property=%s %v\n", doc.Property, err)
 			t.Fatalf("violation reproduced: %v", err)
 		}
